@@ -1155,6 +1155,17 @@ def _infer_expr_type(
             if owner.id in sensors:
                 return "float"
 
+        if attr in {"get_speed", "get_applied_speed", "get_mode"} and isinstance(owner, ast.Name):
+            # DC motor queries: speeds are floats in -1.0..1.0, the mode is a string
+            motors = ctx.get("dc_motor_names", set()) if ctx is not None else None
+            if motors is None or owner.id in motors:
+                return "String" if attr == "get_mode" else "float"
+
+        if attr in {"get_frequency", "get_last_frequency"} and isinstance(owner, ast.Name):
+            buzzers = ctx.get("buzzer_names", set()) if ctx is not None else None
+            if buzzers is None or owner.id in buzzers:
+                return "float"
+
     if isinstance(node, ast.Call) and isinstance(node.func, ast.Name):
         fname = node.func.id
 
